@@ -42,6 +42,7 @@ type parent struct {
 	seen         map[string]int
 	unclassified int
 	leaks        int
+	deadlocks    int
 }
 
 func (pa *parent) start() error {
@@ -165,6 +166,10 @@ const (
 	obLeak  = "oracle: request completes (watchdog) and no goroutine started on its behalf is left parked after it returned"
 )
 
+// enough: the run has already failed beyond doubt; do not spend the budget on more of the same
+// (every deadlock costs a full watchdog period and a worker).
+func (pa *parent) enough() bool { return pa.unclassified > 12 || pa.deadlocks >= 2 }
+
 func sameFailure(a, b CaseResult) bool {
 	return !b.OK && a.Kind == b.Kind && a.Oracle == b.Oracle && a.FindingKey == b.FindingKey
 }
@@ -189,7 +194,7 @@ func selPaths(tree []Sel, prefix []int, out *[][]int) {
 }
 
 func (pa *parent) shrink(c Case, res CaseResult) (Case, CaseResult) {
-	deadline := time.Now().Add(time.Duration(pa.run.Scale(25, 90)) * time.Second)
+	deadline := time.Now().Add(time.Duration(pa.run.Scale(20, 90)) * time.Second)
 	budget := 200
 	try := func(cand Case) bool {
 		if budget <= 0 || time.Now().After(deadline) {
@@ -280,7 +285,10 @@ func (pa *parent) record(c Case, res CaseResult, doShrink bool) {
 	if res.FindingKey == "" {
 		pa.unclassified++
 	}
-	if pa.seen[vk] > 3 {
+	if res.Oracle == "deadlock" {
+		pa.deadlocks++
+	}
+	if pa.seen[vk] > 3 || (res.Oracle == "deadlock" && pa.seen[vk] > 1) {
 		run.Count("violation-not-shrunk(" + res.Oracle + "):" + res.FindingKey)
 		run.Violate(res.Kind, res.What, res.FindingKey, res.Kind == "correspondence", c) // hx keeps 3 per key, counts the rest
 		return
@@ -367,7 +375,7 @@ func main() {
 		c := c
 		pa.record(c, pa.exec(&c), true)
 		nEx++
-		if pa.unclassified > 12 {
+		if pa.enough() {
 			break
 		}
 	}
@@ -375,7 +383,7 @@ func main() {
 	run.Note("exhaustive family: %d of %d cases (modes^3 x release orders; stride %d selected by the seed)", nEx, len(ex), stride)
 	// abandonment family
 	nAb := run.Scale(500, 6000)
-	for i := 0; i < nAb && pa.unclassified <= 12; i++ {
+	for i := 0; i < nAb && !pa.enough(); i++ {
 		c := abandonCase(rnd.Fork())
 		pa.record(c, pa.exec(&c), true)
 		if i < 2 {
@@ -391,7 +399,7 @@ func main() {
 		if i < 3 {
 			run.Sample(c)
 		}
-		if pa.unclassified > 12 {
+		if pa.enough() {
 			break
 		}
 	}
